@@ -21,6 +21,9 @@ type MetricCase struct {
 	Caps     mockstore.Caps `json:"caps"`
 	Superset bool           `json:"superset,omitempty"`
 	Repeat   int            `json:"repeat,omitempty"`
+	// Identical, when set, is the number of records, all with the same line and labels: whatever
+	// the query does with their names and values, they carry equal label sets (C10).
+	Identical int `json:"identical,omitempty"`
 }
 
 func sortedRecs(in []model.Rec) []model.Rec {
